@@ -30,6 +30,9 @@ def screen_of(rows, rng):
                   control_treatment_name="ctl", sample_mapping=SMAP, treatment_mapping=TMAP)
 
 
+SPLIT_VECTOR_NORMALS = [False]
+
+
 class Recorder:
     """logs every random draw of one sampler with the state at that moment, and every block boundary"""
 
@@ -43,7 +46,14 @@ class Recorder:
     def normal(self, loc=0.0, scale=1.0, size=None):
         s = self.snap()
         out = self.rs.normal(loc, scale, size)
-        self.log.append({"fn": "normal", "loc": np.asarray(loc, dtype=float), "scale": np.asarray(scale, dtype=float), "out": np.asarray(out, dtype=float), "snap": s})
+        o = np.asarray(out, dtype=float)
+        if o.ndim >= 1 and o.size > 1 and SPLIT_VECTOR_NORMALS[0]:
+            # several independent normal draws requested in one call: one event per element (the model lists them element by element)
+            L, S = np.broadcast_to(np.asarray(loc, dtype=float), o.shape).ravel(), np.broadcast_to(np.asarray(scale, dtype=float), o.shape).ravel()
+            for i_ in range(o.size):
+                self.log.append({"fn": "normal", "loc": np.asarray(L[i_]), "scale": np.asarray(S[i_]), "out": np.asarray(o.ravel()[i_]), "snap": s})
+            return out
+        self.log.append({"fn": "normal", "loc": np.asarray(loc, dtype=float), "scale": np.asarray(scale, dtype=float), "out": o, "snap": s})
         return out
 
     def gamma(self, shape, scale=1.0, size=None):
@@ -147,41 +157,70 @@ def check_sweep(case, log, y):
         # a draw: it must be the full-conditional draw of SOME element of this block that has not been drawn yet in this sweep, given
         # the state at this very moment (the order of the elements inside a block is not part of C08; the script order is only tried first)
         blk = BLOCK_OF.get(cur)
-        pending = [x for x in range(len(script)) if x not in used and script[x]["block"] == blk]
-        if not pending:
-            nxt = [x for x in range(len(script)) if x not in used]
-            return "unexpected %s draw in %s (the model expects %s)" % (e["fn"], cur, script[nxt[0]]["block"] if nxt else "nothing more")
-        env = env_of(e["snap"], y, prev=prev_out)
-        first_msg, hit = None, None
-        for x in pending:
-            sc = script[x]
-            label = "%s%s" % (sc["block"], sc["idx"])
-            if sc["kind"] == "not-gaussian":
-                msg = None
-            elif sc["fn"] != e["fn"]:
-                msg = "%s drawn with %s, the model requires %s (%s)" % (label, e["fn"], sc["fn"], sc["kind"])
-            elif sc["fn"] == "normal":
-                msg = vec_close(e["loc"], sc["loc"], env, label + " normal mean") or vec_close(e["scale"], sc["scale"], env, label + " normal sd")
-            elif sc["fn"] == "gamma":
-                msg = vec_close(e["shape"], sc["shape"], env, label + " gamma shape") or vec_close(1.0 / np.asarray(e["scale"], dtype=float), sc["rate"], env, label + " gamma rate")
-            else:
-                msg = vec_close(e["Q"], [t for row in sc["Q"] for t in row], env, label + " precision matrix Q") or vec_close(e["b"], sc["b"], env, label + " linear term")
-            if msg is None:
-                # several elements can have the same conditional (e.g. prior draws): the one whose stored value shows up in the state
-                # right after this draw is the one that was drawn
-                nxt_snap = next((f["snap"] for f in log[j_ + 1:] if "snap" in f), None)
-                ok_store = nxt_snap is not None and all(
-                    close(float(nxt_snap[st["a"]][tuple(st["i"])] if st["i"] else nxt_snap[st["a"]]), *_wm(ev(st["v"], env_of(e["snap"], y, out=e["out"]))), 1e-5)
-                    for st in sc["store"])
-                if hit is None or ok_store:
-                    hit = x
-                if ok_store:
+
+        def match(ev_):
+            pending = [x for x in range(len(script)) if x not in used and script[x]["block"] == blk]
+            if not pending:
+                nxt = [x for x in range(len(script)) if x not in used]
+                return None, "unexpected %s draw in %s (the model expects %s)" % (ev_["fn"], cur, script[nxt[0]]["block"] if nxt else "nothing more")
+            env = env_of(ev_["snap"], y, prev=prev_out)
+            first_msg, hit = None, None
+            for x in pending:
+                sc = script[x]
+                label = "%s%s" % (sc["block"], sc["idx"])
+                if sc["kind"] == "not-gaussian":
+                    msg = None
+                elif sc["fn"] != ev_["fn"]:
+                    msg = "%s drawn with %s, the model requires %s (%s)" % (label, ev_["fn"], sc["fn"], sc["kind"])
+                elif sc["fn"] == "normal":
+                    msg = vec_close(ev_["loc"], sc["loc"], env, label + " normal mean") or vec_close(ev_["scale"], sc["scale"], env, label + " normal sd")
+                elif sc["fn"] == "gamma":
+                    msg = vec_close(ev_["shape"], sc["shape"], env, label + " gamma shape") or vec_close(1.0 / np.asarray(ev_["scale"], dtype=float), sc["rate"], env, label + " gamma rate")
+                else:
+                    msg = vec_close(ev_["Q"], [t for row in sc["Q"] for t in row], env, label + " precision matrix Q") or vec_close(ev_["b"], sc["b"], env, label + " linear term")
+                if msg is None:
+                    # several elements can have the same conditional (e.g. prior draws): the one whose stored value shows up in the state
+                    # right after this draw is the one that was drawn
+                    nxt_snap = next((f["snap"] for f in log[j_ + 1:] if "snap" in f), None)
+                    ok_store = nxt_snap is not None and all(
+                        close(float(nxt_snap[st["a"]][tuple(st["i"])] if st["i"] else nxt_snap[st["a"]]), *_wm(ev(st["v"], env_of(ev_["snap"], y, out=ev_["out"]))), 1e-5)
+                        for st in sc["store"])
+                    if hit is None or ok_store:
+                        hit = x
+                    if ok_store:
+                        break
+                first_msg = first_msg or msg
+            if hit is None:
+                return None, first_msg
+            if hit != pending[0]:
+                REORDERED[0] += 1
+            return hit, None
+
+        hit, msg = match(e)
+        if hit is None and e["fn"] == "normal" and np.asarray(e["out"]).size > 1:
+            # several independent normal draws requested in ONE call: each element must be the draw of its own element of the block
+            o = np.asarray(e["out"], dtype=float).ravel()
+            L = np.broadcast_to(np.asarray(e["loc"], dtype=float), np.asarray(e["out"]).shape).ravel()
+            S = np.broadcast_to(np.asarray(e["scale"], dtype=float), np.asarray(e["out"]).shape).ravel()
+            parts, bad_ = [], None
+            for i_ in range(o.size):
+                pe = {"fn": "normal", "loc": np.asarray(L[i_]), "scale": np.asarray(S[i_]), "out": np.asarray(o[i_]), "snap": e["snap"]}
+                h_, m_ = match(pe)
+                if h_ is None:
+                    bad_ = m_
                     break
-            first_msg = first_msg or msg
+                used.add(h_)
+                parts.append((pe, script[h_]))
+            if bad_ is None:
+                REORDERED[0] += 1
+                si = len(used)
+                prev_out = e["out"]
+                draws_in_block.extend(parts)
+                continue
+            for pe, sc_ in parts:
+                used.discard(script.index(sc_))
         if hit is None:
-            return first_msg
-        if hit != pending[0]:
-            REORDERED[0] += 1
+            return msg
         used.add(hit)
         si = len(used)
         prev_out = e["out"]
